@@ -229,7 +229,8 @@ def correspond(H, tier, rng, driver_ok, stats, spec_only=False):
                 continue
             for i, io in outs.items():
                 ij = impl_by_mode["jit"].get(i)
-                if ij is not None and strip(ij) != strip(io):
+                okdiff = getattr(H, "mode_diff_ok", None)   # optional: differences the harness declares legitimate
+                if ij is not None and strip(ij) != strip(io) and not (okdiff and okdiff(cases[i], ij, io, mode)):
                     v = {"what": f"jit≠{mode}", "case": cases[i], "impl": {"jit": ij, mode: io}, "mode": mode}
                     fm = getattr(H, "match_finding", None)
                     if fm:
